@@ -166,19 +166,29 @@ Print Assumptions C13_full_reader_exact.
 
 (* the whole property on bytes: decode with retention under S, emitted encode, then the decoder emitted for the full
    schema W run on the re-encoded bytes returns what it returns on the original message (view W T tv, by C08_tolerant),
-   up to dfill, and stops at the end of the message.  The last two hypotheses put the re-encoded tree in the C08 domain
-   of the full reader (decidable on the closed form). *)
+   up to dfill, and stops at the end of the message.  The original message is in the C08 domain of both readers
+   (evo_dom / no_retyped_variant for S and for W); the re-encoded one then is in W's (C13_reenc_domain). *)
 Theorem C13_retain : forall S W p k T tv g gw,
   wf_schema S = true -> wf_schema W = true -> sub_schema S W = true -> no_keep_arg S = true -> p <> PCompact ->
   wt tv = true -> ttype_of tv = ttype_of_ty S T ->
   evo_dom S T tv = true -> no_retyped_variant S T tv = true ->
+  evo_dom W T tv = true -> no_retyped_variant W T tv = true ->
   forall c, w_pend c = None ->
   viewk S p k c T tv = Ok g -> empty_elems_ok S T tv = true ->
   view W T tv = Ok gw ->
-  evo_dom W T (reenc S T tv) = true -> no_retyped_variant W T (reenc S T tv) = true ->
   exists b gw',
     enc_ty S p k T g c = Ok (b, c) /\ dfill W T gw gw' /\
     forall fuel r rcx, (vsize (reenc S T tv) <= fuel)%nat -> idle rcx ->
       gen_decode W p fuel T (mkS (flat b ++ r) rcx) = Ok (gw', mkS r rcx).
 Proof. exact keep_retain_full. Qed.
 Print Assumptions C13_retain.
+
+(* reenc keeps a message in the domain of the full reader: it re-announces declared element types, re-orders fields and
+   writes out defaults, none of which the walk of W objects to; what W ignores is carried unchanged *)
+Theorem C13_reenc_domain : forall S W p k c T tv g,
+  wf_schema S = true -> wf_schema W = true -> sub_schema S W = true ->
+  no_retyped_variant S T tv = true -> viewk S p k c T tv = Ok g ->
+  evo_dom W T tv = true -> no_retyped_variant W T tv = true ->
+  evo_dom W T (reenc S T tv) = true /\ no_retyped_variant W T (reenc S T tv) = true.
+Proof. exact reenc_dom. Qed.
+Print Assumptions C13_reenc_domain.
